@@ -96,6 +96,16 @@ func genViewPerm(r *rand.Rand, s *ast.Schema, def *ast.Definition, depth int) br
 					for k, v := range genViewPerm(r, s, s.Types[ptn], depth-1).AllowedSubfields {
 						sub.AllowedSubfields[k] = v
 					}
+					if len(sub.AllowedSubfields) == 0 { // members at the depth limit: still a proper part of them
+						for _, mf := range s.Types[ptn].Fields {
+							if !strings.HasPrefix(mf.Name, "__") && r.Intn(2) == 0 {
+								sub.AllowedSubfields[mf.Name] = bramble.AllowedFields{AllowAll: true}
+							}
+						}
+					}
+				}
+				if ks := sortedKeys(sub.AllowedSubfields); len(ks) > 1 && r.Intn(2) == 0 {
+					delete(sub.AllowedSubfields, ks[r.Intn(len(ks))]) // some member loses a field the others may keep
 				}
 			}
 			m[f.Name] = sub
